@@ -146,6 +146,11 @@ impl World {
                     tokio::time::advance(Duration::from_nanos(adv)).await;
                 }
             }
+            // Snap to the timer wheel's millisecond ticks: tokio rounds timer deadlines up to
+            // its own 1 ms ticks, so from a tick-aligned instant whole-millisecond sleeps are
+            // exact (a probe "1 ms before the deadline" really is). The grid phase keeps a
+            // random sub-millisecond part, different in every episode.
+            tokio::time::sleep(Duration::from_millis(1)).await;
         }
         Arc::new(World {
             app,
